@@ -1,0 +1,47 @@
+//go:build verif
+
+package heur
+
+// VerifDigest is an FNV-1a digest of all history stores of mr (build tag verif).
+func (mr *MoveRanker) VerifDigest() uint64 {
+	h := uint64(14695981039346656037)
+	mix := func(v int16) {
+		h ^= uint64(uint16(v)) & 0xff
+		h *= 1099511628211
+		h ^= uint64(uint16(v)) >> 8
+		h *= 1099511628211
+	}
+	for _, a := range mr.history.data {
+		for _, b := range a {
+			for _, v := range b {
+				mix(int16(v))
+			}
+		}
+	}
+	for _, a := range mr.captHist.data {
+		for _, b := range a {
+			for _, v := range b {
+				mix(int16(v))
+			}
+		}
+	}
+	for _, c := range mr.continuations {
+		for _, a := range c.data {
+			for _, b := range a {
+				for _, cc := range b {
+					for _, d := range cc {
+						for _, v := range d {
+							mix(int16(v))
+						}
+					}
+				}
+			}
+		}
+	}
+	return h
+}
+
+// VerifStores exposes the individual stores of mr.
+func (mr *MoveRanker) VerifStores() (*History, *CaptHist, [2]*Continuation) {
+	return mr.history, mr.captHist, mr.continuations
+}
